@@ -179,6 +179,33 @@ var c11Injectors = []c11Injector{
 		return true
 	}},
 	// ---- dangling / ill-kinded references: no crash, same verdict
+	// two modules define a top-level node with the same local name (the repository keeps all top-level
+	// nodes of a model set in one name space): whatever the verdict, it must be the same every time, and
+	// if the set is accepted the merged tree must be the same every time
+	{"same-top-level-name-in-two-modules", false, func(r *core.Rng, ms *yang.ModSet) bool {
+		n := 0
+		for _, m := range ms.Mods {
+			if m.Kw != "module" {
+				continue
+			}
+			addBody(m, yang.S("container", "shared-top", yang.S("leaf", fmt.Sprintf("only-in-%d", n), yang.S("type", "string")),
+				yang.S("leaf", "common", yang.S("type", []string{"string", "uint8", "boolean"}[n%3]))))
+			n++
+		}
+		if n < 2 {
+			x := yang.S("module", "dup-x", yang.S("namespace", "urn:verif:dup-x"), yang.S("prefix", "dx"),
+				yang.S("container", "shared-top", yang.S("leaf", "only-in-x", yang.S("type", "int8"))))
+			ms.Mods = append(ms.Mods, x)
+		}
+		return true
+	}},
+	{"same-top-level-leaf-in-two-modules", false, func(r *core.Rng, ms *yang.ModSet) bool {
+		addBody(modA(ms), yang.S("leaf", "shared-leaf", yang.S("type", "string"), yang.S("default", "from-a")))
+		x := yang.S("module", "dup-y", yang.S("namespace", "urn:verif:dup-y"), yang.S("prefix", "dy"),
+			yang.S("leaf", "shared-leaf", yang.S("type", "uint16"), yang.S("default", "7")))
+		ms.Mods = append(ms.Mods, x)
+		return true
+	}},
 	{"unknown-prefix-in-type", false, func(r *core.Rng, ms *yang.ModSet) bool {
 		addBody(modA(ms), yang.S("leaf", "dl", yang.S("type", "nopfx:t")))
 		return true
